@@ -155,7 +155,7 @@ def ia64Slots (enc : Bool) (pc : BitVec 32) (mask : Nat) (v : BitVec 128) : BitV
   if (mask / 4) % 2 = 1 then ia64Slot enc pc 2 v else v
 
 def ia64Bundle (enc : Bool) (pc : BitVec 32) (v : BitVec 128) : BitVec 128 :=
-  ia64Slots enc pc (ia64BranchTable.getD (v.toNat % 32) 0) v
+  ia64Slots enc pc (ia64BranchTable.getD (getB v 0 &&& 0x1F#32).toNat 0) v
 
 def ia64Code (enc : Bool) (nowPos : BitVec 32) (buf : List UInt8) : List UInt8 × Nat :=
   blockCode 16 (ia64Bundle enc) nowPos buf
